@@ -13,7 +13,9 @@ Inductive api :=
 | AProduce | AFetch | AListOffsets | AMetadata | ABrokers | AController
 | AFindCoordinator | AJoinGroup | ASyncGroup | AHeartbeat | ALeaveGroup
 | AOffsetCommit | AOffsetFetch | AListGroups | ACreateTopics | ADeleteTopics
-| AApiVersions | ASaslHandshake | ASaslAuthenticate.
+| AApiVersions | ASaslHandshake | ASaslAuthenticate
+| AFetchRead (acts : list Z).   (* fetch, then Batch.Read / ReadMessage calls, then Batch.Close:
+                                  an action a >= 0 is Read into a buffer of a bytes, -1 is ReadMessage *)
 
 (* an operation: the API, the version negotiated for it (apiVersionMap.negotiate pinned by
    the broker's ApiVersions answer) and, for fetch, the offset the Conn was seeked to *)
@@ -33,7 +35,7 @@ Definition negotiate (broker_max : Z) (sorted_supported : list Z) : Z :=
 Definition negotiated (a : api) (v : N) : bool :=
   let among (l : list N) := existsb (N.eqb v) l in
   match a with
-  | AProduce => among [2; 3; 7] | AFetch => among [2; 5; 10]
+  | AProduce => among [2; 3; 7] | AFetch | AFetchRead _ => among [2; 5; 10]
   | AMetadata => among [1; 6] | AJoinGroup => among [1; 2]
   | ACreateTopics => among [0; 1; 2] | ADeleteTopics | ASaslHandshake => among [0; 1]
   | AListOffsets | ABrokers | AController | AOffsetFetch | AListGroups => among [1]
@@ -80,7 +82,7 @@ Definition t_listoffset_part := tup [TI32; TI16; TI64; TI64].
 Definition resp_ty (a : api) (v : N) : ty :=
   match a with
   | AProduce => tup [TArr (tup [TStr; TArr (t_produce_part v)]); TI32]
-  | AFetch =>
+  | AFetch | AFetchRead _ =>
       if (v =? 2)%N then tup [TI32; TArr (tup [TStr; TArr (tup [TI32; TI16; TI64; TByt])])]
       else
         let part := tup [TI32; TI16; TI64; TI64; TI64; TArr t_aborted; TByt] in
@@ -113,7 +115,7 @@ Definition resp_ty (a : api) (v : N) : ty :=
    readResponse for metadata: read() never returns a kafka.Error, so its drain branch is dead) *)
 Definition schema_api (a : api) : bool :=
   match a with
-  | AProduce | AFetch | AListOffsets | AApiVersions => false
+  | AProduce | AFetch | AFetchRead _ | AListOffsets | AApiVersions => false
   | _ => true
   end.
 
@@ -210,16 +212,107 @@ Definition fetch_header_v10 : P (Z * Z) :=
 Definition fetch_header (v : N) : P (Z * Z) :=
   if (v =? 10)%N then fetch_header_v10 else if (v =? 5)%N then fetch_header_v5 else fetch_header_v2.
 
-(* message_reader.go readHeader (first call, count = 0): the bytes it reads per magic *)
-Definition msg_header : P Z :=
-  _ <- readInt64 ;; _ <- readInt32 ;; _ <- readInt32 ;;
+(* message_reader.go readNextHeader: the header of the next message (magic 0/1) or record batch
+   (magic 2); what the reader keeps of it *)
+Record mstate := mkM {
+  m_count : Z;      (* readerStack.count: messages left under the current header *)
+  m_magic : Z;
+  m_first : Z;      (* header.firstOffset *)
+  m_attr : Z;       (* attributes (compression bits) *)
+  m_hcount : Z      (* header.v2.count *)
+}.
+Definition next_header : P mstate :=
+  first <- readInt64 ;; _ <- readInt32 ;; _ <- readInt32 ;;
   magic <- readInt8 ;;
-  if magic =? 0 then (_ <- readInt8 ;; ret magic)
-  else if magic =? 1 then (_ <- readInt8 ;; _ <- readInt64 ;; ret magic)
+  if magic =? 0 then (a <- readInt8 ;; ret (mkM 1 0 first a 1))
+  else if magic =? 1 then (a <- readInt8 ;; _ <- readInt64 ;; ret (mkM 1 1 first a 1))
   else if magic =? 2 then
-    (_ <- readInt32 ;; _ <- readInt16 ;; _ <- readInt32 ;; _ <- readInt64 ;; _ <- readInt64 ;;
-     _ <- readInt64 ;; _ <- readInt16 ;; _ <- readInt32 ;; _ <- readInt32 ;; ret magic)
+    (_ <- readInt32 ;; a <- readInt16 ;; _ <- readInt32 ;; _ <- readInt64 ;; _ <- readInt64 ;;
+     _ <- readInt64 ;; _ <- readInt16 ;; _ <- readInt32 ;; c <- readInt32 ;; ret (mkM c 2 first a c))
   else fail (EFmt 4).
+(* newMessageSetReader: the first header *)
+Definition msg_header : P Z := m <- next_header ;; ret (m_magic m).
+
+(* ---- reading messages: message_reader.go readMessage / readMessageV1 / readMessageV2 for
+   uncompressed sets, batch.go Read / ReadMessage.  Not modelled (explicit EUnmodelled):
+   compressed sets, record batches without records, messages below the requested offset. ---- *)
+Definition read_header (m : mstate) : P mstate :=
+  if 0 <? m_count m then ret m
+  else
+    m' <- next_header ;;
+    if (m_magic m' =? 2) && (m_count m' <=? 0) then fail EUnmodelled else ret m'.
+
+Definition compressed (attr : Z) : bool := negb (Z.land attr 7 =? 0).
+
+(* one message: (new reader state, offset, key result, value result) *)
+Definition read_v1 {K V} (key : Z -> P K) (val : Z -> P V) (min : Z) (m : mstate) : P (mstate * Z * K * V) :=
+  remain <- get_sz ;;
+  if remain =? 0 then fail EShort else            (* the stack is exhausted: errShortRead *)
+  if compressed (m_attr m) then fail EUnmodelled else
+  if m_first m <? min then fail EUnmodelled else
+  k <- readBytesWith key ;;
+  v <- readBytesWith val ;;
+  ret (mkM (m_count m - 1) (m_magic m) (m_first m) (m_attr m) (m_hcount m), m_first m, k, v).
+
+Definition record_header : P unit :=
+  kl <- readVarInt ;; _ <- readNewBytes kl ;; vl <- readVarInt ;; _ <- readNewBytes vl ;; ret tt.
+
+Definition read_v2 {K V} (key : Z -> P K) (val : Z -> P V) (m : mstate) : P (mstate * Z * K * V) :=
+  if (m_count m =? m_hcount m) && compressed (m_attr m) then fail EUnmodelled else
+  _ <- readVarInt ;;                              (* record length *)
+  _ <- readInt8 ;;                                (* attributes *)
+  _ <- readVarInt ;;                              (* timestamp delta *)
+  od <- readVarInt ;;                             (* offset delta *)
+  kl <- readVarInt ;; k <- key kl ;;
+  vl <- readVarInt ;; v <- val vl ;;
+  hc <- readVarInt ;;
+  _ <- (if 0 <? hc then rep (Z.to_nat hc) record_header else ret []) ;;
+  ret (mkM (m_count m - 1) (m_magic m) (m_first m) (m_attr m) (m_hcount m), m_first m + od, k, v).
+
+Definition read_one {K V} (key : Z -> P K) (val : Z -> P V) (min : Z) (m : mstate)
+  : P (mstate * Z * K * V) :=
+  m1 <- read_header m ;;
+  if m_magic m1 =? 2 then read_v2 key val m1 else read_v1 key val min m1.
+
+(* batch.go Read(b) with cap(b) = len(b) = c: the key is discarded; of the value min(n, c) bytes
+   are read into b and the rest discarded; result (n, the bytes put into b) *)
+Definition read_key_cb (n : Z) : P unit := if n <? 0 then ret tt else discardN n.
+Definition read_val_cb (c : Z) (n : Z) : P (Z * list N) :=
+  if n <? 0 then ret (0, []) else
+  _ <- guard_short n ;;
+  let k := Z.min n c in
+  b <- readNewBytes k ;;
+  _ <- discardN (n - k) ;;
+  ret (n, b).
+
+(* outcome of one action, as a value: [kind; n or offset; key; bytes; class]
+   kind 0 = Read, 1 = ReadMessage; class 0 = ok, 1 = io.ErrShortBuffer, 2 = io.EOF (end of batch) *)
+Definition act_val (kind n : Z) (k b : list N) (cls : Z) : val :=
+  VL [VZ kind; VZ n; VB k; VB b; VZ cls].
+Definition fin_val (flag boff : Z) (outs : list val) : val := VL [VZ flag; VZ boff; VL outs].
+
+(* the actions in order, stopping at io.ErrShortBuffer (batch offset rolled back to the message
+   that did not fit) or at the end of the batch; [boff] is Batch.offset *)
+Fixpoint run_acts (acts : list Z) (m : mstate) (boff : Z) (outs : list val) {struct acts} : P val :=
+  match acts with
+  | [] => ret (fin_val 0 boff outs)
+  | a :: rest =>
+      if a <? 0 then
+        x <- try_short (read_one readNewBytes readNewBytes boff m) ;;
+        match x with
+        | None => ret (fin_val 0 boff (outs ++ [act_val 1 0 [] [] 2]))
+        | Some (m', off, k, v) =>
+            run_acts rest m' (if boff <=? off then off + 1 else boff) (outs ++ [act_val 1 off k v 0])
+        end
+      else
+        x <- try_short (read_one read_key_cb (read_val_cb a) boff m) ;;
+        match x with
+        | None => ret (fin_val 0 boff (outs ++ [act_val 0 0 [] [] 2]))
+        | Some (m', off, _, (n, b)) =>
+            if a <? n then ret (fin_val 1 boff (outs ++ [act_val 0 a [] b 1]))       (* rollback *)
+            else run_acts rest m' (if boff <=? off then off + 1 else boff) (outs ++ [act_val 0 n [] b 0])
+        end
+  end.
 
 (* ---- conn.go ApiVersions: the read callback (no expectZeroSize); the error code is looked at
    after Conn.do returned ---- *)
@@ -251,12 +344,26 @@ Definition fetch_read (v : N) (off : Z) : P val :=
   if snd h =? off then (_ <- discard_remaining ;; ret r)
   else (_ <- msg_header ;; _ <- discard_remaining ;; ret r).
 
+(* ReadBatchWith, the Read / ReadMessage actions, Batch.Close.  With highWaterMark = offset the
+   reader is the empty one: only the case without actions is modelled. *)
+Definition fetch_reads (v : N) (off : Z) (acts : list Z) : P val :=
+  h <- skipRemainingOnKafkaError (fetch_header v) ;;
+  if snd h =? off then
+    (_ <- discard_remaining ;;
+     match acts with [] => ret (fin_val 0 off []) | _ => fail EUnmodelled end)
+  else
+    m <- next_header ;;
+    r <- run_acts acts m off [] ;;
+    _ <- discard_remaining ;;
+    ret r.
+
 (* the read callback handed to Conn.do (for fetch: see above) *)
 Definition op_read (a : api) (v : N) (off : Z) : P val :=
   match a with
   | AProduce => produce_read v
   | AListOffsets => listoffsets_read
   | AFetch => fetch_read v off
+  | AFetchRead acts => fetch_reads v off acts
   | AApiVersions => apiversions_read
   | _ => expectZeroSize (read_ty (resp_ty a v))
   end.
@@ -264,7 +371,7 @@ Definition op_read (a : api) (v : N) (off : Z) : P val :=
 (* how the error of the read phase reaches the caller: ReadBatchWith maps errShortRead through
    checkTimeoutErr and io.EOF through dontExpectEOF; Conn.do returns it unchanged *)
 Definition map_err (a : api) (e : err) : err :=
-  match a with AFetch => dontExpectEOF (short_to_eof e) | _ => e end.
+  match a with AFetch | AFetchRead _ => dontExpectEOF (short_to_eof e) | _ => e end.
 
 (* ---- the connection ---- *)
 Record conn_state := mkConn {
@@ -307,6 +414,9 @@ Definition post (topic : list N) (a : api) (v : N) (r : val) : result :=
       end
   end.
 
+Definition op_offset (st : conn_state) (o : op) : Z :=
+  match op_api o with AFetch | AFetchRead _ => op_off o | _ => offset st end.
+
 (* one operation on the connection; [s] is what the peer sends from now on (end of list =
    the peer closed).  Returns the new state, the result, and the unconsumed stream.
    Conn.do / ReadBatchWith+Batch.close: a Kafka error keeps the connection, any other error
@@ -314,7 +424,7 @@ Definition post (topic : list N) (a : api) (v : N) (r : val) : result :=
 Definition conn_do (st : conn_state) (o : op) (s : list N) : conn_state * result * list N :=
   let id := wrap32 (corr st + 1) in
   let a := op_api o in
-  let off := match a with AFetch => op_off o | _ => offset st end in
+  let off := op_offset st o in
   let st1 := mkConn (closed st) id (cfg_topic st) off in
   if closed st then (st1, RErr EClosed, s)       (* doRequest: the write fails *)
   else
@@ -350,7 +460,7 @@ Definition single_topic_partition (a : api) (v : N) (w : wval) : Prop :=
   match a with
   | AProduce => exists topics thr, w = WP topics thr /\ one_tp topics
   | AListOffsets => one_tp w
-  | AFetch =>
+  | AFetch | AFetchRead _ =>
       if (v =? 10)%N then exists thr e sid topics, w = WP thr (WP e (WP sid topics)) /\ one_tp topics
       else exists thr topics, w = WP thr topics /\ one_tp topics
   | _ => True
@@ -380,8 +490,7 @@ Definition conn_do_i (sti : conn_state * Z) (o : op) (s : list N)
     let '(st', r, s') := conn_do st o s in
     ((st', n1 - 1), Returns r, s')                      (* the write failed: c.leave() *)
   else if foreign_head (wrap32 (corr st + 1)) s && negb (n1 =? 1) then
-    let off := match op_api o with AFetch => op_off o | _ => offset st end in
-    ((mkConn false (wrap32 (corr st + 1)) (cfg_topic st) off, n1), Spins, s)
+    ((mkConn false (wrap32 (corr st + 1)) (cfg_topic st) (op_offset st o), n1), Spins, s)
   else
     let '(st', r, s') := conn_do st o s in
     ((st', n1 - 1), Returns r, s').                     (* the exit of waitResponse's loop: c.leave() *)
@@ -397,5 +506,66 @@ Fixpoint conn_run_i (sti : conn_state * Z) (ops : list op) (s : list N) {struct 
       | (sti1, out, s1) =>
           let '(sti2, outs, s2) := conn_run_i sti1 r s1 in
           (sti2, out :: outs, s2)
+      end
+  end.
+
+(* ---- version negotiation: conn.go negotiateVersion / loadVersions ----
+   The version map is loaded lazily by the first operation that negotiates: an implicit
+   ApiVersions exchange whose answer is cached ONLY when it succeeded; on an error (a Kafka error
+   code keeps the Conn) nothing is cached and the next negotiating operation asks again. *)
+Definition supported (a : api) : option (Z * list Z) :=      (* api key, versions offered *)
+  match a with
+  | AProduce => Some (0, [2; 3; 7])
+  | AFetch | AFetchRead _ => Some (1, [2; 5; 10])
+  | AMetadata => Some (3, [1; 6])
+  | AJoinGroup => Some (11, [1; 2])
+  | ASaslHandshake => Some (17, [0; 1])
+  | ACreateTopics => Some (19, [0; 1; 2])
+  | ADeleteTopics => Some (20, [0; 1])
+  | _ => None
+  end.
+Definition fixed_version (a : api) : N :=
+  match a with
+  | AListOffsets | ABrokers | AController | AOffsetFetch | AListGroups => 1
+  | AOffsetCommit => 2
+  | _ => 0
+  end%N.
+(* apiVersionMap: api key -> MaxVersion; built by "v[key] = a" in list order (the last entry of
+   a key wins); a missing key reads as the zero ApiVersion (MaxVersion 0) *)
+Definition vtable := list (Z * Z).
+Definition table_of (r : val) : vtable := map (fun e => (zfield 0 e, zfield 2 e)) (lof r).
+Definition max_version (t : vtable) (key : Z) : Z :=
+  match find (fun e => fst e =? key) (rev t) with Some e => snd e | None => 0 end.
+
+Definition nconn : Type := (conn_state * option vtable)%type.
+
+(* one operation of the public / group API, version negotiated by the Conn *)
+Definition conn_nop (c : nconn) (a : api) (off : Z) (s : list N) : nconn * result * list N :=
+  let '(st, vers) := c in
+  match supported a with
+  | None =>
+      let '(st', r, s') := conn_do st (mkOp a (fixed_version a) off) s in ((st', vers), r, s')
+  | Some (key, offered) =>
+      (* loadVersions *)
+      let loaded :=
+        match vers with
+        | Some t => (st, Some t, s, None)
+        | None =>
+            match conn_do st (mkOp AApiVersions 0 0) s with
+            | (st1, ROk r, s1) => (st1, Some (table_of r), s1, None)        (* c.apiVersions.Store(v) *)
+            | (st1, RErr e, s1) => (st1, None, s1, Some e)
+            end
+        end in
+      match loaded with
+      | (st1, vers1, s1, Some e) =>
+          (* ReadBatchWith wraps it in a Batch: dontExpectEOF *)
+          let e' := match a with AFetch | AFetchRead _ => dontExpectEOF e | _ => e end in
+          ((st1, vers1), RErr e', s1)
+      | (st1, None, s1, None) => ((st1, None), RErr EUnmodelled, s1)          (* not reachable *)
+      | (st1, Some t, s1, None) =>
+          let v := negotiate (max_version t key) offered in
+          if v <? 0 then ((st1, Some t), RErr (EFmt 7), s1)     (* "no matching versions were found" *)
+          else
+            let '(st', r, s') := conn_do st1 (mkOp a (Z.to_N v) off) s1 in ((st', Some t), r, s')
       end
   end.
